@@ -81,6 +81,12 @@ Definition levels (depth : nat) (just : bool) : option nat :=
 Definition depth_ok (depth : nat) : Prop :=
   match c_max_depth cfg with None => True | Some m => depth <= m end.
 
+Lemma levels_just_le depth just k : ble (levels depth (just || k)) (levels depth just).
+Proof.
+  unfold levels. destruct just; cbn [orb]; [apply ble_refl|].
+  destruct k; [|apply ble_refl]. destruct (c_max_depth cfg); simpl; auto. lia.
+Qed.
+
 Lemma cut_off_false_levels depth just jst :
   depth_ok depth -> cut_off cfg just (S depth) = false ->
   positive (levels depth just) /\ ble (levels (S depth) jst) (dec (levels depth just)) /\ depth_ok (S depth).
@@ -379,13 +385,15 @@ Proof.
       destruct (same_product p (find_setup_product w (s_env st) name) && negb (depth =? 0)).
       * cbn [good]. split; [apply env_frame_refl|split; [assumption|apply alias_frame_refl]].
       * assert (H0 : good N st (match find_setup_product w (s_env st) name with
-                                | Some _ => rec st ds1 name false depth just
+                                | Some _ => rec st ds1 name false depth (just || c_keep cfg)
                                 | None => RDone true st ds1 end)).
         { destruct (find_setup_product w (s_env st) name).
-          - now apply Hrec.
+          - apply (good_mono (touches (levels depth (just || c_keep cfg)) name) N).
+            + intros n Hn. apply (touches_mono _ _ _ Hn). apply levels_just_le.
+            + now apply Hrec.
           - cbn [good]. split; [apply env_frame_refl|split; [assumption|apply alias_frame_refl]]. }
         destruct (match find_setup_product w (s_env st) name with
-                  | Some _ => rec st ds1 name false depth just
+                  | Some _ => rec st ds1 name false depth (just || c_keep cfg)
                   | None => RDone true st ds1 end) as [ok st1 ds2|st1 ds2| |]; cbn [good] in H0; auto.
         destruct H0 as [E [D A]].
         destruct (set_product_vars_ok H N name p st1 HNself D) as [E2 [D2 A2]].
